@@ -134,7 +134,7 @@ func runC11(c *Ctx, ev *Evidence) ([]Violation, error) {
 		}
 		lin.Close()
 		if allOK {
-			cfg.Summaries = map[string]func(args []sym.Value) sym.Value{helper: func(args []sym.Value) sym.Value {
+			cfg.Summaries = map[string]func(in *sym.Interp, st *sym.State, args []sym.Value) sym.Value{helper: func(in *sym.Interp, st *sym.State, args []sym.Value) sym.Value {
 				t := args[1].(*smt.Term)
 				if !t.IsConst() {
 					panic("hasRelToken summary needs a constant token")
